@@ -79,7 +79,7 @@ def run(ck, m):
                      'every invalidation reaches byte 0 of the flag file, where the start-up reads it — a node that learnt a key it never '
                      'persisted and restarts with the flag still reading valid asks for an incremental catch-up and never gets the writes '
                      'that only lived in its memory')
-    _alias.repeat(ck, m, 'C16', ('C16.b',), 'C05.o', key_filter=lambda k: 'flag-written-at-offset-zero' in k or 'memory-equals-disk' in k)
+    _alias.repeat(ck, m, 'C16', ('C16.b',), 'C05.o', key_filter=lambda k: 'flag-written-at-offset-zero' in k or 'memory-equals-disk' in k or 'map-before-valid' in k)
     # the incremental catch-up is built from what the oplog query returns: the query's "last record of a key wins" rules are C12's
     # (d: files oldest first, live file last; h: every record inserted unconditionally); their verdicts are repeated here because a
     # key written and then removed while the node was away is removed on it only if the LAST record labels the key
